@@ -36,8 +36,9 @@ EXPRESSIONS = [
     "r.flag and r.n > 0", "r.flag == True", "r.unset == None", "r.unset is None", "r.unset is not None", "r.n is None", "r.sl == ['a', 'b']", "'a' in r.sl", "r.f > 1.0", "r.port == 80 or r.port == 443", "r.port in (80, 443)",
     "name(r) == 'c07/rec'", "'c07/rec' in names(r)", "has_field(r, 'n')", "has_field(r, 'zz')", "upper(r.s) == 'X'", "lower(r.s) == lower(r.t)", "r.ip == '1.2.3.4'", "r.ip in r.net", "'10.0.0.1' in r.net",
     "field_equals(r, ['s', 't'], ['abc'], nocase=False)", "field_contains(r, ['s'], ['b'], nocase=False)", "any(x == 'a' for x in r.sl)", "all(x != 'z' for x in r.sl)", "any(x == r.s for x in r.sl)",
-    "any(x + y == 'ab' for x in r.sl for y in r.sl)", "str(r.n) == '5'", "repr(r.s) == repr(r.t)", "r.n == 1 and not (r.m == 2) or r.n != 1 and r.m == 2", "(r.n, r.m) == (1, 2)", "[r.n, r.m] == [1, 2]", "(r.n,) == (1,)", "r.b == b'ab'",
+    "any(x + y == 'ab' for x in r.sl for y in r.sl)", "any(x == 'b' for x in r.sl if x != 'b')", "all(x == 'a' for x in r.sl if x == 'a')", "any(x + y == 'ba' for x in r.sl if x == 'a' for y in r.sl if y != x)", "any(x == r.s for x in r.sl if r.n > 1)", "str(r.n) == '5'", "repr(r.s) == repr(r.t)", "r.n == 1 and not (r.m == 2) or r.n != 1 and r.m == 2", "(r.n, r.m) == (1, 2)", "[r.n, r.m] == [1, 2]", "(r.n,) == (1,)", "r.b == b'ab'",
     "Type.varint == 5", "Type.varint > r.n", "Type.string == 'abc'", "'ab' in Type.string", "Type.varint <= 5", "Type.varint >= 5", "Type.varint != 5", "Type.uint16 == 80", "net.ipaddress('1.2.3.4') == r.ip", "string('x') == r.s", "varint(5) == r.n",
+    "str(path('/a/b')) == '/a/b'", "uint16(80) == r.port", "filesize(5) > 1", "uri('http://h/p') == 'http://h/p'", "net.ipnetwork('10.0.0.0/8') == r.net", "wstring('x') == r.s", "uint32(80) == r.port", "boolean(1) == r.flag",
     "True", "False", "None", "1", "0", "'x'", "''", "[]", "[0]", "()", "1 == 1", "1 < 2 < 3", "3 > 2 > 2",
 ]
 REJECTED = ["lambda: 1", "{1: 2}", "{1, 2}", "r.n if r.m else 1", "r.sl[0] == 'a'", "f'{r.n}'", "[x for x in r.sl]", "{x for x in r.sl}", "(y := 1)", "r.n - 1", "r.n // 2", "r.n ** 2", "r.n << 1", "r.n >> 1", "r.n ^ 1", "-r.n", "+r.n", "~r.n", "*r.sl", "r.n.__class__"]
@@ -230,8 +231,11 @@ def build(tier="quick", seed=0):
         """Python's meaning of the expression: evaluated by pyvc's expression semantics in the documented namespace."""
         ns = {f.name: f for f in sel.g["FUNCTION_WHITELIST"]}
         ns.update({"r": rec, "Type": SpecType(rec), "net": base.g["net"], "str": str, "repr": repr, "any": any, "all": all, "None": None, "True": True, "False": False})
-        for w in ("string", "varint", "uint16"):
-            ns[w] = it.getattr_(base.g["dynamic_fieldtype"], w)
+        # the field type constructors named in an expression denote the whitelisted field type classes themselves (spec side: resolved by fieldtype(), not
+        # through the selector's DynamicFieldtypeModule)
+        for w in L.import_module("flow.record.whitelist").g["WHITELIST"]:
+            if "." not in w and w not in ("record", "dynamic"):
+                ns[w] = it.call(base.g["fieldtype"], [w], {})
         return it.eval(ast.parse(expr, mode="eval").body, ns, sel)
 
     def expr_obligation(expr):
